@@ -690,3 +690,100 @@ pub fn elimination_config() -> impl Strategy<Value = Config> {
         Config { flop, ranges, scope: None }
     })
 }
+
+// ---------------------------------------------------------------------------------------------
+// other ways of consuming the iterator
+
+/// The evaluator's iterator may override any provided `Iterator` method (`nth`, `count`, `last`,
+/// `fold`, `size_hint`, ...), and `skip`, `step_by`, `collect`, `for_each` are built on those.
+/// Whatever way a caller iterates, it must see the sequence that plain `next()` calls give - the
+/// sequence the callers of this function compare with the model.  `sel` picks step widths and the
+/// second variant; `limit` bounds the reference run.
+pub fn consume_variants(mk: &dyn Fn() -> FlopExhaustiveEvaluator, tr: &Translator, limit: usize, sel: u64, what: &str) -> Result<(), Fail> {
+    let show = |x: Option<(u8, u8, u64)>| match x {
+        Some((t, r, fp)) => format!("the showdown at position ({},{}) #{:08x}", t, r, fp as u32),
+        None => "None".to_string(),
+    };
+    let mut reference: Vec<(u8, u8, u64)> = vec![];
+    let mut it = mk().into_iter();
+    loop {
+        std::hint::black_box(it.size_hint());
+        match it.next() {
+            Some(s) => {
+                if reference.len() >= limit {
+                    return Err(Fail::new("over-production", format!("{}: more than {} showdowns", what, limit)));
+                }
+                reference.push(tr.light(&s));
+            }
+            None => break,
+        }
+    }
+    std::hint::black_box(it.size_hint());
+    let n = reference.len();
+    let mut x = mix64(sel ^ 0x5eed_c0de);
+    // nth() walk with mixed step widths (skip() and step_by() are built on nth())
+    {
+        let mut it = mk().into_iter();
+        let mut pos = 0usize;
+        loop {
+            x = mix64(x);
+            let r = x >> 8;
+            let k = match x % 16 {
+                0..=7 => r % 3,
+                8..=11 => r % 8,
+                12..=13 => r % 64,
+                14 => r % (n as u64 / 4 + 2),
+                _ => r % (n as u64 + 2),
+            } as usize;
+            let got = it.nth(k).map(|s| tr.light(&s));
+            let want = reference.get(pos + k).copied();
+            if got != want {
+                return Err(Fail::new("nth-differs", format!("{}: after {} showdowns were consumed, nth({}) returns {}, but {} next() calls lead to {} ({} showdowns in all)", what, pos, k, show(got), k + 1, show(want), n)));
+            }
+            if want.is_none() {
+                break;
+            }
+            pos += k + 1;
+        }
+        if it.nth(0).is_some() || it.next().is_some() {
+            return Err(Fail::new("not-exhausted", format!("{}: a showdown is returned after nth() had returned None", what)));
+        }
+    }
+    x = mix64(x);
+    match sel % 3 {
+        0 => {
+            let k = (x >> 3) as usize % (n + 2);
+            let w = 1 + (x >> 40) as usize % 9;
+            let got: Vec<_> = mk().into_iter().skip(k).step_by(w).take(limit + 1).map(|s| tr.light(&s)).collect();
+            let want: Vec<_> = reference.iter().skip(k).step_by(w).copied().collect();
+            if got != want {
+                let i = got.iter().zip(want.iter()).position(|(a, b)| a != b).unwrap_or(got.len().min(want.len()));
+                return Err(Fail::new("skip-step-differs", format!("{}: skip({}).step_by({}) gives {} showdowns, picking from the next() sequence gives {}; first difference at element {}: {} instead of {}", what, k, w, got.len(), want.len(), i, show(got.get(i).copied()), show(want.get(i).copied()))));
+            }
+        }
+        1 => {
+            let c = mk().into_iter().count();
+            if c != n {
+                return Err(Fail::new("count-differs", format!("{}: count() = {}, next() yields {} showdowns", what, c, n)));
+            }
+            let l = mk().into_iter().last().map(|s| tr.light(&s));
+            if l != reference.last().copied() {
+                return Err(Fail::new("last-differs", format!("{}: last() returns {}, the last showdown next() yields is {}", what, show(l), show(reference.last().copied()))));
+            }
+        }
+        _ => {
+            let mut got: Vec<(u8, u8, u64)> = Vec::with_capacity(n);
+            if n <= 200_000 && x & 1 == 0 {
+                let v: Vec<Showdown> = mk().into_iter().collect();
+                got.extend(v.iter().map(|s| tr.light(s)));
+            } else {
+                mk().into_iter().for_each(|s| got.push(tr.light(&s)));
+            }
+            if got != reference {
+                let i = got.iter().zip(reference.iter()).position(|(a, b)| a != b).unwrap_or(got.len().min(n));
+                return Err(Fail::new("collect-differs", format!("{}: collect()/for_each() gives {} showdowns, next() {}; first difference at element {}: {} instead of {}", what, got.len(), n, i, show(got.get(i).copied()), show(reference.get(i).copied()))));
+            }
+        }
+    }
+    Ok(())
+}
